@@ -456,8 +456,11 @@ class XMLReader(object):
                     # Special handling of values;
                     curr_text = node.text.strip() if node.text else None
                     if tag == "values" and curr_text:
-                        content = from_csv(node.text)
-                        arguments[tag] = content
+                        try:
+                            arguments[tag] = from_csv(node.text)
+                        except csv.Error as exc:
+                            # e.g. a bare carriage return or an entry beyond the csv field size limit
+                            self.error("Values could not be read: %s" % exc, node)
                     # Special handling of cardinality
                     elif tag.endswith("_cardinality") and curr_text:
                         arguments[tag] = parse_cardinality(node.text)
